@@ -27,7 +27,7 @@ Lemma calls_register_unchecked_ok : calls_register_unchecked =
 Proof. reflexivity. Qed.
 
 Lemma calls_register_unchecked_impl_ok : calls_register_unchecked_impl =
-  ["GlobalData::ensure"; "Arc::from"; ".write"; "SignalData::clone"; "ActionId"; ".entry"; "Entry::Occupied"; "assert!"; ".get_mut"; ".insert"; ".is_none"; "Entry::Vacant"; ".write"; ".store"; "Prev::detect"; "Slot::new"; ".insert"; ".insert"; ".store"].
+  ["GlobalData::ensure"; "Arc::from"; ".write"; "SignalData::clone"; "ActionId"; ".entry"; "Entry::Occupied"; "assert!"; ".get_mut"; ".insert"; ".is_none"; "Entry::Vacant"; ".write"; ".store"; "Prev::detect"; "?"; "Slot::new"; "?"; ".insert"; ".insert"; ".store"].
 Proof. reflexivity. Qed.
 
 Lemma calls_unregister_ok : calls_unregister =
@@ -39,7 +39,7 @@ Lemma calls_unregister_signal_ok : calls_unregister_signal =
 Proof. reflexivity. Qed.
 
 Lemma calls_pipe_register_raw_ok : calls_pipe_register_raw =
-  ["libc::getsockopt"; ".set_flags"; ".wake"; "super::register"].
+  ["libc::getsockopt"; ".set_flags"; "?"; ".wake"; "super::register"].
 Proof. reflexivity. Qed.
 
 Lemma calls_pipe_register_ok : calls_pipe_register =
@@ -51,13 +51,13 @@ Lemma calls_flag_register_ok : calls_flag_register =
 Proof. reflexivity. Qed.
 
 Lemma calls_handle_add_signal_ok : calls_handle_add_signal =
-  [".lock"; ".unwrap_or_else"; ".is_some"; "Arc::clone"; ".add_signal"; "Arc::clone"].
+  [".lock"; ".unwrap_or_else"; ".is_some"; "return"; "Arc::clone"; ".add_signal"; "Arc::clone"; "?"].
 Proof. reflexivity. Qed.
 
 Lemma calls_pending_add_signal_ok : calls_pending_add_signal =
-  ["assert!"; "assert!"; "assert!"; ".supports_signal"; ".init"; ".store"; ".wake_readers"; "signal_hook_registry::register_sigaction"].
+  ["assert!"; "assert!"; "assert!"; ".supports_signal"; ".init"; ".store"; ".wake_readers"; "signal_hook_registry::register_sigaction"; "?"].
 Proof. reflexivity. Qed.
 
 Lemma calls_with_pipe_ok : calls_with_pipe =
-  ["Arc::new"; "PendingSignals::new"; "Arc::clone"; "Handle::new"; ".add_signal"; ".borrow"].
+  ["Arc::new"; "PendingSignals::new"; "Arc::clone"; "Handle::new"; ".add_signal"; ".borrow"; "?"].
 Proof. reflexivity. Qed.
